@@ -85,4 +85,27 @@ Proof.
   apply (IH s4 s'); [|exact H].
   refine (attempt_all_P _ _ _ _ E4). apply H_idrain; assumption.
 Qed.
+
+(* an abort hands back a state that satisfies the invariant of the phase it happened in *)
+Theorem main_loop_P_err fuel : forall s e sx,
+  P [] s -> main_loop C rank fuel ans s = inr (e, sx) -> P [] sx \/ Q sx.
+Proof.
+  induction fuel as [|n IH]; intros s e sx HP H; [inversion H; subst; auto|].
+  cbn [main_loop] in H.
+  destruct (loop_cond s) eqn:Ec; cbn [negb] in H; [|discriminate].
+  destruct (drain_queue C rank (S n) s) as [s1|e1] eqn:E1; [|inversion H; subst; auto].
+  destruct (drain_queue_P _ _ _ HP E1) as [HP1 _].
+  destruct (drain (fdep s1)) as [ws t1] eqn:Ed1.
+  destruct (attempt_all C rank (sort_rank rank ws) (set_fdep t1 s1)) as [s2|e2] eqn:E2; [|inversion H; subst; auto].
+  assert (HP2 : P [] s2).
+  { refine (attempt_all_P _ _ _ _ E2).
+    apply (H_perm ws); [intros x; symmetry; apply sort_rank_in|]. apply H_fdrain; assumption. }
+  set (s3 := if refused s2 then s2 else prompt_all ans (sort_rank rank (unmet_dependencies (idep s2))) s2) in *.
+  assert (HQ3 : Q s3).
+  { unfold s3. destruct (refused s2) eqn:Er; [apply H_noprompt|apply H_prompt]; assumption. }
+  destruct (drain (idep s3)) as [wi t2] eqn:Ed2.
+  destruct (attempt_all C rank wi (set_idep t2 s3)) as [s4|e4] eqn:E4; [|inversion H; subst; auto].
+  apply (IH s4 e sx); [|exact H].
+  refine (attempt_all_P _ _ _ _ E4). apply H_idrain; assumption.
+Qed.
 End Ind.
